@@ -68,6 +68,39 @@ fn pruned_branch_shares_node_with_live_code(prog: &Prog, trace: &crate::model::e
     dead.iter().any(|n| trace.executed.contains(n))
 }
 
+/// Known finding F18 (keyed on the unpruned run: a group of distinct case node objects with one
+/// identity hash of which no object took both branches while the group as a whole did).
+const SIG_SPLIT: &str = "equal-case-nodes-take-different-branches-and-diverge-after-pruning";
+
+/// Every executed case node OBJECT of a program with its identity hash and the branches that
+/// this object took (the library's own tracker records per identity hash).
+fn case_objects(p: &Arc<RedeemNode>, env: &simplicity::jet::ElementsTxEnv) -> Option<Vec<([u8; 32], bool, bool, String)>> {
+    use simplicity::bit_machine::{ExecTracker, NodeOutput};
+    use simplicity::node::Inner;
+    #[derive(Default)]
+    struct ByObject {
+        seen: std::collections::HashMap<usize, ([u8; 32], bool, bool, String)>,
+    }
+    impl ExecTracker for ByObject {
+        fn visit_node(&mut self, node: &RedeemNode, mut input: simplicity::bit_machine::FrameIter, _output: NodeOutput) {
+            if let Inner::Case(..) = node.inner() {
+                let e = self.seen.entry(node as *const RedeemNode as usize).or_insert_with(|| (node.ihr().to_byte_array(), false, false, node.arrow().to_string()));
+                match input.next() {
+                    Some(false) => e.1 = true,
+                    Some(true) => e.2 = true,
+                    None => {}
+                }
+            }
+        }
+    }
+    let mut t = ByObject::default();
+    let mut mac = BitMachine::for_program(p).ok()?;
+    mac.exec_with_tracker(p, env, &mut t).ok()?;
+    let mut v: Vec<_> = t.seen.into_values().collect();
+    v.sort();
+    Some(v)
+}
+
 pub fn case(cx: &mut Case) -> CaseResult {
     let mut cfg = GenCfg::basic(Family::Elements);
     cfg.jet_pool = Some(POOL.with(|p| p.clone()));
@@ -123,7 +156,36 @@ pub fn case(cx: &mut Case) -> CaseResult {
     cx.label_if(shares, "pruned-away branch shares a node with live code");
 
     let env = dummy_env();
+    // Which case node OBJECTS took which branches in the unpruned run (the library's tracker
+    // records per identity hash).  A group of distinct case objects with one identity hash of
+    // which no single object took both branches, while the group as a whole did, is the case
+    // predicate of the known finding F18.
+    let split_case_group: bool = {
+        let mut found = false;
+        if let Some(objs) = case_objects(&redeem, &env) {
+            let mut groups: std::collections::HashMap<[u8; 32], Vec<(bool, bool)>> = std::collections::HashMap::new();
+            for (ihr, l, r, _) in &objs {
+                groups.entry(*ihr).or_default().push((*l, *r));
+            }
+            for (ihr, g) in &groups {
+                let union = (g.iter().any(|x| x.0), g.iter().any(|x| x.1));
+                if g.len() >= 2 && union == (true, true) && g.iter().any(|x| !(x.0 && x.1)) {
+                    found = true;
+                    cx.note(|| format!("unpruned: case objects with identity hash {} took {:?}", hex(ihr), g));
+                }
+            }
+        }
+        found
+    };
+    cx.label_if(split_case_group, "equal case nodes (one identity hash, distinct objects) took different branches");
     let pruned = redeem.prune(&env).map_err(|e| format!("prune failed on a program that runs: {}; program {}", e, prog.render()))?;
+    if cx.verbose {
+        if let Some(objs) = case_objects(&pruned, &env) {
+            for (ihr, l, r, arrow) in objs {
+                eprintln!("  pruned: case object {} : {} took left {} right {}", hex(&ihr[..6]), arrow, l, r);
+            }
+        }
+    }
     if pruned.cmr() != redeem.cmr() {
         return Err(format!("pruning changed the cmr: {} -> {}; program {}", redeem.cmr(), pruned.cmr(), prog.render()));
     }
@@ -218,13 +280,66 @@ pub fn case(cx: &mut Case) -> CaseResult {
             }
         }
     }
+    // the anti-DoS rule stated on the Rust side: running the pruned program executes every one
+    // of its nodes and takes both branches of every remaining case node
+    let rust_antidos: Option<String> = {
+        use simplicity::bit_machine::{ExecTracker, NodeOutput};
+        use simplicity::node::Inner;
+        #[derive(Default)]
+        struct Cover {
+            executed: HashSet<[u8; 32]>,
+            left: HashSet<[u8; 32]>,
+            right: HashSet<[u8; 32]>,
+        }
+        impl ExecTracker for Cover {
+            fn visit_node(&mut self, node: &RedeemNode, mut input: simplicity::bit_machine::FrameIter, _output: NodeOutput) {
+                let p = node.ihr().to_byte_array(); // identity after encoding (nodes of equal identity hash are one node on the wire)
+                self.executed.insert(p);
+                if let Inner::Case(..) | Inner::AssertL(..) | Inner::AssertR(..) = node.inner() {
+                    match input.next() {
+                        Some(false) => {
+                            self.left.insert(p);
+                        }
+                        Some(true) => {
+                            self.right.insert(p);
+                        }
+                        None => {}
+                    }
+                }
+            }
+        }
+        let mut cover = Cover::default();
+        let mut problem = None;
+        if let Ok(mut mac) = BitMachine::for_program(&pruned) {
+            if mac.exec_with_tracker(&pruned, &env, &mut cover).is_ok() {
+                for d in simplicity::dag::DagLike::post_order_iter::<simplicity::dag::InternalSharing>(pruned.as_ref()) {
+                    let p = d.node.ihr().to_byte_array();
+                    if !cover.executed.contains(&p) {
+                        problem = Some(format!("node {} ({:?} : {}) of the pruned program is never executed", d.index, d.node.inner().as_ref().map(|_| ()).map_disconnect(|_| ()).map_witness(|_| ()), d.node.arrow()));
+                        break;
+                    }
+                    if let Inner::Case(..) = d.node.inner() {
+                        if !(cover.left.contains(&p) && cover.right.contains(&p)) {
+                            problem = Some(format!("case node {} of the pruned program takes only its {} branch", d.index, if cover.left.contains(&p) { "left" } else { "right" }));
+                            break;
+                        }
+                    }
+                }
+            }
+        }
+        problem
+    };
     // libsimplicity accepts it with all anti-DoS checks on
     let c = cbind::run(&pb, &wb, Some(cbind::EvalRequest { flags: cbind::CHECK_ALL, env: Some(env.c_tx_env()), min_cost: 0, budget: None }));
     let c_ok = c.rejected.is_none() && c.eval == Some(cbind::SimplicityErr::NoError);
     if !c_ok {
-        let what = format!("libsimplicity does not accept the pruned program with CHECK_ALL: rejected {:?}, eval {:?}; bytes {} / {}; program {}", c.rejected, c.eval, hex(&pb), hex(&wb), prog.render());
+        let what = format!("libsimplicity does not accept the pruned program with CHECK_ALL: rejected {:?}, eval {:?}; Rust-side coverage of the pruned program: {}; bytes {} / {}; program {}", c.rejected, c.eval, rust_antidos.clone().unwrap_or_else(|| "every node executed, every case both ways".into()), hex(&pb), hex(&wb), prog.render());
         if shares && !serialisation_ok {
             cx.known_or_fail(sig, || what)?;
+        } else if split_case_group && c.rejected.is_none() && c.eval == Some(cbind::SimplicityErr::AntiDoS) {
+            // F18: equal case nodes that took different branches are all kept as full case nodes;
+            // re-inference then gives the copies different types and each keeps a dead branch
+            cx.known_or_fail(SIG_SPLIT, || what)?;
         } else {
             return Err(what);
         }
@@ -253,6 +368,8 @@ pub fn case(cx: &mut Case) -> CaseResult {
         let what = format!("pruning the pruned program again changes it: ihr {} -> {}, bytes {} -> {}", pruned.ihr(), again.ihr(), hex(&pb), hex(&pb2));
         if shares && !serialisation_ok {
             cx.known_or_fail(sig, || what)?;
+        } else if split_case_group {
+            cx.known_or_fail(SIG_SPLIT, || what)?;
         } else {
             return Err(what);
         }
